@@ -206,7 +206,7 @@ def analyse(s, ctx, desc):
             inside = True
         elif e[1] == "ret" and e[2] == "f_op":
             inside = False
-        elif e[1] == "locknew" and inside and lock is None:
+        elif e[1] == "locknew" and inside and lock is None and e[2].startswith("L"):
             lock = e[2]
     cur = {}
     sections = []
